@@ -306,7 +306,7 @@ static void *upd_main(struct thr *t)
 			upd_add_one(t, mine, &pop, &seq, 1);
 		while (pop > b0) {
 			upd_del_one(t, mine, &pop, pop - 1);
-			vp_rcu_qs();
+			end_iteration(t);
 		}
 	}
 	free(mine);
@@ -515,6 +515,7 @@ static void *thr_main(void *arg)
 	me = t;
 	vp_pin(t->idx);
 	t->vt = vp_self();
+	VP_STORE(t->ktid, (int) syscall(SYS_gettid));
 	rcu_register_thread();
 	if (g_rc.sig && (t->role == R_RESIDENT || t->role == R_WALK || t->role == R_CONT))
 		vp_chaos_register_self();
